@@ -69,7 +69,10 @@ impl TaskPool {
     pub fn spawn(&self, code: Box<dyn FnMut() + Send>) {
         let mut queue = self.sharing.todo.lock().unwrap();
 
-        if self.sharing.waiting_tasks.load(Ordering::Acquire) == 0 {
+        // every task already in the queue has been promised to one of the idle workers (they only
+        // stop counting as idle once they hold this lock again), so only the remaining idle
+        // workers are available for `code`
+        if queue.len() >= self.sharing.waiting_tasks.load(Ordering::Acquire) {
             self.add_thread(Some(code));
         } else {
             queue.push_back(code);
